@@ -138,7 +138,55 @@ pub fn c16(a: &Args) {
                         if meta & 2 != 0 { p.author = META_STRINGS[(fcase as usize / 3) % META_STRINGS.len()].to_string(); }
                         if meta & 4 != 0 { p.description = META_STRINGS[(fcase as usize / 7) % META_STRINGS.len()].to_string(); }
                         let variant = format!("n={n},title={},author={},descr={},names={names}", meta & 1, (meta >> 1) & 1, (meta >> 2) & 1);
-                        let res = guard(|| { let bytes = p.export_palette(fmt); Palette::load_palette(fmt, &bytes).map(|q| pal_colors(&q)).map_err(|e| e.to_string()) });
+                        // both entry points: by format, and (every other case, for the formats it knows) by file name
+                        let by_name = fcase % 2 == 0 && *name != "ice";
+                        let res = guard(|| {
+                            let bytes = p.export_palette(fmt);
+                            if by_name { Palette::import_palette(std::path::Path::new(&format!("palette.{name}")), &bytes).map(|q| pal_colors(&q)).map_err(|e| e.to_string()) }
+                            else { Palette::load_palette(fmt, &bytes).map(|q| pal_colors(&q)).map_err(|e| e.to_string()) }
+                        });
+                        match res {
+                            Ok(Ok(outc)) => out.ev(&json!({"ev":"file","fmt":name,"variant":variant,"in":pal_colors(&p),"out":outc,"ok":1})),
+                            Ok(Err(e)) => out.ev(&json!({"ev":"file","fmt":name,"variant":variant,"in":pal_colors(&p),"out":[],"ok":0,"err":e})),
+                            Err(pi) => out.ev(&json!({"ev":"file","fmt":name,"variant":variant,"in":pal_colors(&p),"out":[],"ok":0,"err":panic_site(&pi)})),
+                        }
+                    }
+                }
+            }
+        }
+    }
+
+    // (4b) files of exactly a "magic" length (sizes of raw colour tables and powers of two: a loader that sniffs the kind of file
+    //      from its length must not mistake a text palette for one): for every text format palettes are searched whose export
+    //      has exactly L bytes, L in {48, 64, 192, 256, 768, 1024} and L +- 1
+    {
+        let mut r = rng(seed, 9999);
+        for (name, fmt) in &fmts {
+            for target in [48usize, 64, 192, 256, 768, 1024] {
+                for delta in [0i64, -1, 1] {
+                    let want = (target as i64 + delta) as usize;
+                    let mut found = None;
+                    for attempt in 0..4000 {
+                        // number of colours around want / (typical line length), digit classes varied
+                        let per = match *name { "hex" => 7, "pal" => 10, "gpl" => 18, "ice" => 12, _ => 10 };
+                        let n = ((want / per).max(1) as i64 + r.gen_range(-6..=6)).clamp(1, 256) as usize;
+                        let mut p = Palette::new();
+                        for _ in 0..n {
+                            let c = |r: &mut rand::rngs::StdRng| match r.gen_range(0..3) { 0 => r.gen_range(0..10u8), 1 => r.gen_range(10..100), _ => r.gen_range(100..=255) };
+                            p.push(Color::new(c(&mut r), c(&mut r), c(&mut r)));
+                        }
+                        if attempt % 3 == 0 { p.title = "t".repeat(r.gen_range(0..12)); }
+                        if p.export_palette(fmt).len() == want { found = Some(p); break; }
+                    }
+                    let Some(p) = found else { continue };
+                    let variant = format!("len={want}");
+                    for by_name in [false, true] {
+                        if by_name && *name == "ice" { continue; }
+                        let res = guard(|| {
+                            let bytes = p.export_palette(fmt);
+                            if by_name { Palette::import_palette(std::path::Path::new(&format!("palette.{name}")), &bytes).map(|q| pal_colors(&q)).map_err(|e| e.to_string()) }
+                            else { Palette::load_palette(fmt, &bytes).map(|q| pal_colors(&q)).map_err(|e| e.to_string()) }
+                        });
                         match res {
                             Ok(Ok(outc)) => out.ev(&json!({"ev":"file","fmt":name,"variant":variant,"in":pal_colors(&p),"out":outc,"ok":1})),
                             Ok(Err(e)) => out.ev(&json!({"ev":"file","fmt":name,"variant":variant,"in":pal_colors(&p),"out":[],"ok":0,"err":e})),
